@@ -45,7 +45,15 @@ def load_job(comm, shape, nprocs, layout, folder, time, dtype):
     g.getAllData()[:] = sl.sentinel(dtype)
     g.loadFromFile(folder, time)
     lay = h.getLayout(layout)
-    return {"block": sl.decode(g.getAllData()).tolist(), "rc": [int(x) for x in lay.ranks], "P": [int(x) for x in lay.nprocs]}
+    first = sl.decode(g.getAllData()).tolist()
+    # the loaded field is the grid's field from then on: a layout change and back shows the same blocks
+    with sl.warnings.catch_warnings():
+        sl.warnings.simplefilter("ignore")
+        other = [n for n in STD if n != layout][0]
+        g.setLayout(other)
+        g.setLayout(layout)
+    again = sl.decode(g.getAllData()).tolist()
+    return {"block": first if first == again else [-3] * len(first), "rc": [int(x) for x in lay.ranks], "P": [int(x) for x in lay.nprocs]}
 
 
 def setup_job(comm, folder, kw):
@@ -196,7 +204,9 @@ def part_constants(ctx, rng, work, events, meta, quick):
     for f in sorted(os.listdir(os.path.join(os.environ.get("VERIF_REPO", "/repo"), "testSetups"))):
         sources.append(("testSetups/" + f + " (symbolic expressions)", open(os.path.join(os.environ.get("VERIF_REPO", "/repo"), "testSetups", f)).read()))
     sym = dict(scenarios.CONSTANTS)
-    sym.update({"rMax": "rMin+14.4", "vMax": "2*3.66", "deltaR": "4.0*deltaRN0/deltaRTi", "zMax": "R0*2*pi", "npts": [6, 8, 8, 8]})
+    sym.update({"rMin": 0.3, "R0": 200.5, "kTi": 0.3, "deltaRTi": 1.3, "deltaRN0": 2.5, "CTi": 0.9,          # operands that differ from the defaults
+                "rMax": "rMin+14.4", "vMax": "2*2.5", "vMin": "-vMax", "deltaR": "4.0*deltaRN0/deltaRTi", "zMax": "R0*2*pi", "kTe": "kTi",
+                "CTe": "CTi", "deltaRTe": "deltaRTi", "npts": [6, 8, 8, 8]})
     sources.append(("chained symbolic expressions", json.dumps(sym)))
     # a file that gives rp itself (legal: rp is a public constant and setupCylindricalGrid accepts it as keyword)
     c2 = get_constants(scenarios.write_constants(os.path.join(work, "c_rp.json"), rp=5.5))
@@ -217,6 +227,24 @@ def part_constants(ctx, rng, work, events, meta, quick):
             events.append({"k": "const", "ok": False, "same": False, "err": "%s: %s" % (type(ex).__name__, ex)})
             meta.append({"part": "constants", "source": name, "order": "as written"})
             continue
+        if name == "chained symbolic expressions":      # the expressions, evaluated here from the file's own literals
+            import math
+            env_ = {"pi": math.pi}
+            pend = dict(data)
+            for _ in range(len(pend) + 1):
+                for k_, v_ in list(pend.items()):
+                    if not isinstance(v_, str):
+                        env_[k_] = v_
+                        pend.pop(k_)
+                    else:
+                        try:
+                            env_[k_] = eval(v_, {"__builtins__": {}}, dict(env_))
+                            pend.pop(k_)
+                        except NameError:
+                            pass
+            bad_ = [k_ for k_, v_ in env_.items() if k_ in base and k_ != "pi" and not isinstance(v_, list) and abs(float(base[k_]) - float(v_)) > 1e-12 * max(1.0, abs(float(v_)))]
+            events.append({"k": "const", "ok": True, "same": not bad_})
+            meta.append({"part": "constants", "source": name, "order": "expressions evaluated from the file's literals", "diff": bad_})
         # every literal of the file is the value of that constant (zeros included: a default must not replace a given 0)
         lit = {k: v for k, v in data.items() if isinstance(v, (int, float)) and not isinstance(v, bool) and k in base}
         bad = [k for k, v in lit.items() if base[k] != v]
@@ -267,6 +295,31 @@ def part_constants(ctx, rng, work, events, meta, quick):
             except Exception as ex:
                 events.append({"k": "const", "ok": False, "same": False, "err": "%s: %s" % (type(ex).__name__, ex)})
                 meta.append({"part": "constants", "source": name, "order": perm})
+
+
+def part_setupsave(ctx, work, events, meta):
+    """setupSave writes the parameter file of THESE constants into the folder it returns: new folder, existing empty folder, existing
+    folder that still holds the parameter file of an earlier run."""
+    from pygyro.utilities.savingTools import setupSave
+    from pygyro.initialisation.constants import get_constants
+    c_old = get_constants(scenarios.write_constants(os.path.join(work, "ss_old.json"), m=7, eps=0.2))
+    c_new = get_constants(scenarios.write_constants(os.path.join(work, "ss_new.json"), m=3, eps=0.01, rp=5.75))
+    for case in ("new folder", "existing empty folder", "existing folder with an earlier parameter file"):
+        fold = os.path.join(work, "ss_" + case.replace(" ", "_"))
+        try:
+            if case != "new folder":
+                os.makedirs(fold)
+            if case.endswith("parameter file"):
+                setupSave(c_old, fold)
+            ret = setupSave(c_new, fold)
+            back = const_values(get_constants(os.path.join(ret, "initParams.json")))
+            want = const_values(c_new)
+            diff = [k for k in want if want[k] != back.get(k)]
+            events.append({"k": "const", "ok": True, "same": bool(not diff and os.path.samefile(ret, fold))})
+            meta.append({"part": "constants", "source": "setupSave into " + case, "order": "parameter file written by setupSave", "diff": diff})
+        except Exception as ex:
+            events.append({"k": "const", "ok": False, "same": False, "err": "%s: %s" % (type(ex).__name__, ex)})
+            meta.append({"part": "constants", "source": "setupSave into " + case, "order": "parameter file written by setupSave"})
 
 
 def part_setup_overrides(ctx, work, events, meta):
@@ -418,6 +471,7 @@ def run(ctx):
         part_latest(ctx, rng, work, events, meta, quick)
         part_constants(ctx, rng, work, events, meta, quick)
         part_setup_overrides(ctx, work, events, meta)
+        part_setupsave(ctx, work, events, meta)
         part_driver(ctx, rng, work, events, meta, quick)
     finally:
         shutil.rmtree(work, ignore_errors=True)
